@@ -15,6 +15,7 @@ import (
 	"github.com/cometbft/cometbft/libs/log"
 	"github.com/cosmos/cosmos-sdk/store/rootmulti"
 	storetypes "github.com/cosmos/cosmos-sdk/store/types"
+	sdk "github.com/cosmos/cosmos-sdk/types"
 	upgradetypes "github.com/cosmos/cosmos-sdk/x/upgrade/types"
 	"github.com/medibloc/panacea-core/v2/app"
 	"pgregory.net/rapid"
@@ -26,7 +27,7 @@ import (
 var CfgC19 = &MachineCfg{
 	Prop: "C19", Also: agreement,
 	Gens: withGens("commit", 16, "crash", 2, "restart", 3),
-	Bias: map[string]int{"right-signers": 94, "exec": 2, "right-proof": 85},
+	Bias: map[string]int{"right-signers": 94, "exec": 2, "right-proof": 85, "group": 14, "group-actor": 20},
 	Rule: "a chain populated by a mixed history runs on the emulated previous release (newest upgrade descriptor absent), an upgrade plan for the newest descriptor is scheduled at a generated height, the previous release halts there and the full release is opened on the same database and home, with restarts injected before, at and after the upgrade height; oracle = upgrade block processed without panic, done-height and module version map recorded, aol/did/pnft stores and probe-set answers identical across the upgrade block, same app hashes as a run without restarts; plus the complete store-set fold of the descriptor list and a store-loader run on generated pre-upgrade databases; non-trivial = >=1 entity in each custom module at the upgrade height and >=1 restart at or next to it",
 	Step: burnStep,
 }
@@ -51,6 +52,29 @@ type upgradeScenario struct {
 	RestartAt    string       `json:"restart_at"`    // "", "redeliver" (inside the upgrade block), "endblock"
 	RestartAfter bool         `json:"restart_after"` // restart right after the upgrade block
 	TailSteps    []world.Step `json:"tail_steps"`
+}
+
+// previousReleaseVersions are the consensus versions of the custom modules in the release that
+// precedes this one (all 1 at the pinned commit). The previous release is emulated by the same
+// code, which records ITS versions at InitChain; where the tree under test runs a higher version
+// than the previous release did, the stored version is put back so that the upgrade really runs
+// the migrations a chain coming from the previous release would run.
+var previousReleaseVersions = map[string]uint64{"aol": 1, "did": 1, "pnft": 1, "burn": 1}
+
+func restorePreviousVersions(a *app.App, ctx sdk.Context) int {
+	cur := a.ModuleManager.GetVersionMap()
+	vm := a.UpgradeKeeper.GetModuleVersionMap(ctx)
+	n := 0
+	for _, m := range world.SortedKeys(previousReleaseVersions) {
+		if cur[m] > previousReleaseVersions[m] && vm[m] != previousReleaseVersions[m] {
+			vm[m] = previousReleaseVersions[m]
+			n++
+		}
+	}
+	if n > 0 {
+		a.UpgradeKeeper.SetModuleVersionMap(ctx, vm)
+	}
+	return n
 }
 
 // tailStops counts the stop points taken after the upgrade block.
@@ -108,6 +132,9 @@ func runUpgrade(cfg *MachineCfg, sc *upgradeScenario, gen func(w *world.World, t
 	}
 	if err := w.C.App.UpgradeKeeper.ScheduleUpgrade(w.C.DeliverCtx(), upgradetypes.Plan{Name: name, Height: planHeight, Info: "verif"}); err != nil {
 		return w, hashes, fmt.Errorf("schedule: %w", err)
+	}
+	if restorePreviousVersions(w.C.App, w.C.DeliverCtx()) > 0 {
+		w.Label("c19 stored module versions put back to the previous release's")
 	}
 	if _, err := w.C.EndBlock(); err != nil {
 		return w, hashes, vio19("%v", err)
@@ -284,6 +311,7 @@ func replayBlocksNoRestart(blocks []*world.BlockRec) error {
 			if err := c.App.UpgradeKeeper.ScheduleUpgrade(c.DeliverCtx(), upgradetypes.Plan{Name: name, Height: h, Info: "verif"}); err != nil {
 				return err
 			}
+			restorePreviousVersions(c.App, c.DeliverCtx())
 		}
 		for _, raw := range b.Raw {
 			c.DeliverTx(raw)
